@@ -19,8 +19,8 @@ ROOT = os.path.dirname(os.path.dirname(os.path.abspath(__file__)))
 REPO = os.environ.get("VF_REPO", "/repo")
 SPEC = os.path.join(ROOT, "spec")
 HARNESS = os.path.join(ROOT, "harness")
-EVID = os.path.join(ROOT, "evidence")
-OUT = os.path.join(ROOT, "out")
+EVID = os.environ.get("VF_EVIDENCE_DIR", os.path.join(ROOT, "evidence"))
+OUT = os.environ.get("VF_OUT_DIR", os.path.join(ROOT, "out"))
 GOENV = dict(os.environ, GOTOOLCHAIN="local", GOFLAGS="-mod=mod", GOPROXY="off", GONOSUMDB="*", GONOSUMCHECK="1")
 GOENV.pop("GOSUMDB", None)
 GO = shutil.which("go1.26.8") or "/usr/local/bin/go1.26.8"
